@@ -121,10 +121,11 @@ def gen_case(rng, name, exact=False):
             S[:, int(rng.integers(0, f.size))] = 1.0            # a unit impulse
     elif u < 0.32 and name in ("linear_triangular", "log_triangular"):
         # a window whose only sample lies just inside its edge (relative distance 3e-7 .. 3e-10 from it): the weight is tiny but positive, the normalised average is that sample
-        eps_rel = float(rng.choice([3e-7, 3e-8, 3e-10]))
+        # (the distance is chosen so that the case is outside the razor-edge margin this harness sets aside - 1e-7 relative - while the weight stays below 1e-6)
+        eps_rel = float(rng.choice([4e-7, 6e-7, 8e-7]))
         if name == "log_triangular":
             f = np.array([0.5, 2.0, 8.0, 32.0, 128.0])
-            b = 0.2
+            b = 0.5
             k = int(rng.integers(0, f.size))
             side = 1.0 if rng.random() < 0.5 else -1.0
             fcs = np.array([f[k] / 10.0 ** (side * (b / 2) * (1 - eps_rel)), 8.0])
